@@ -8,7 +8,7 @@
      stored before the block could be built - that is known finding D1 (a concrete fork is replayed against the real code
      by the harness: known_findings.json D1f/D1fa), so the unconditional statement is false of the code and is not claimed. *)
 From Coq Require Import List Arith.
-From DbftV Require Import Agreement.
+From DbftV Require Import Agreement Gates Replay D1.
 
 Theorem agreement_from_certificates (node bhash : Type) (V byz : nat -> list nat) (honest_key : nat -> Prop)
   (accepts : node -> nat -> bhash -> Prop) (signed : nat -> nat -> bhash -> Prop) :
@@ -22,3 +22,11 @@ Theorem agreement_from_certificates (node bhash : Type) (V byz : nat -> list nat
   forall n n' h b b', accepts n h b -> accepts n' h b' -> b = b'.
 Proof. exact (agreement node bhash V honest_key byz accepts signed). Qed.
 Print Assumptions agreement_from_certificates.
+
+(* the Certificate premise is not delivered by the node: a block is handed over with fewer than M verifying commits
+   (the model-level witness of known finding D1; the fork it enables between three honest nodes and one equivocating
+   primary is replayed on the real library by `verifh fork`, known findings D1f/D1fa) *)
+Theorem certificate_premise_refuted_at_node_level :
+  exists cfg st ev sc st' tr s, Reach cfg st /\ step cfg st ev sc = Ok (st', tr) /\ In s (handed_over_at tr) /\ (valid_commits s < Mq s)%Z.
+Proof. exact (refutes_sound d1_cfg d1 d1_refutes). Qed.
+Print Assumptions certificate_premise_refuted_at_node_level.
